@@ -29,10 +29,7 @@ func calc(numLeaves uint64, hashes []Hash, proof Proof) ([]uint64, []Hash, error
 		var sib Hash
 		if i%2 == 1 {
 			sib = hashes[i-1]
-		} else {
-			if len(proof.Proof) <= i {
-				return nil, nil, errors.New("proof too short")
-			}
+		} else if i < len(proof.Proof) {
 			sib = proof.Proof[i]
 		}
 		out = append(out, next(uint64(i), h, sib))
